@@ -125,6 +125,10 @@ func (in *Interp) harnessAPI(fn *ssa.Function, a []Value) (Value, bool) {
 	case "vMapOrderSym":
 		in.mapOrderSym = term(a[0]).cv == 1
 		return nil, true
+	case "vOut":
+		n, _ := a[0].(StringV).concrete()
+		in.ex.Out[n] = int(int64(in.ex.Choose(term(a[1]))))
+		return nil, true
 	case "vIsSymbolic":
 		return True, true
 	case "vNote":
